@@ -2,6 +2,7 @@
 // payloads, payload builders, TECMP conversion, status tracker). Every output byte / value goes to a Sink.
 // Used by C19 (digest per thread under TSan) and C20 (definedness under memcheck, differential heap fill).
 #pragma once
+#include <type_traits>
 #include <forward_list>
 #include <functional>
 #include <memory>
@@ -55,6 +56,13 @@ inline Hooks*& hooks()
 {
     static thread_local Hooks* h = nullptr;
     return h;
+}
+// optional allocation failpoint provided by the driver (one that replaces operator new): armAllocationFailure(k) lets the k-th
+// allocation from now on fail with std::bad_alloc once; armAllocationFailure(-1) disarms. Null in drivers without one.
+inline void (*&armAllocationFailure())(long)
+{
+    static void (*f)(long) = nullptr;
+    return f;
 }
 struct InLib
 {
@@ -116,11 +124,31 @@ struct Misaligned
     }
 };
 
+// a copy of the object when its class is copyable (all three are on the pinned tree), a fresh one otherwise - so that a change
+// which takes copyability away does not stop the drivers from compiling
+template <typename T>
+inline T copyOrFresh(const T& x)
+{
+    if constexpr (std::is_copy_constructible_v<T>)
+        return T(x);
+    else
+        return T();
+}
 struct State
 {
     ASAM::CMP::Encoder enc;
     ASAM::CMP::Decoder dec;
     ASAM::CMP::Status status;
+    State() = default;
+    State(const State& o)
+        : enc(copyOrFresh(o.enc))
+#ifndef VF_NO_DECODER_COPY
+        , dec(copyOrFresh(o.dec))
+#endif
+        , status(copyOrFresh(o.status))
+    {
+    }
+    State& operator=(const State&) = delete;
 };
 
 inline ASAM::CMP::Packet buildPacket(Rng& r, Kind k, size_t len, uint8_t version)
@@ -274,7 +302,24 @@ inline const char* genDecode(State& st, Rng& r, Sink& s, int& sub)
         {
             Misaligned mf(f.data(), f.size(), r.below(8));
             InLib g;
-            got = st.dec.decode(mf.data, f.size());
+            if (armAllocationFailure() && r.chance(1, 10))
+            {
+                // the call is cut short by an allocation failure and the frame is offered again: what is then returned is output
+                // like any other (every byte determined by the inputs)
+                armAllocationFailure()(static_cast<long>(r.below(6)));
+                try
+                {
+                    got = st.dec.decode(mf.data, f.size());
+                    armAllocationFailure()(-1);
+                }
+                catch (const std::bad_alloc&)
+                {
+                    armAllocationFailure()(-1);
+                    got = st.dec.decode(mf.data, f.size());
+                }
+            }
+            else
+                got = st.dec.decode(mf.data, f.size());
         }
         s.value("decode.packetCount", got.size());
         for (auto& p : got)
